@@ -268,9 +268,50 @@ func (env *verifQEnv) verifRunAdmission(ctx *Context) {
 			}
 		}
 	}
+	// A pass that returns nil asks for no retry. Whatever happened concurrently, a due Job
+	// may then be left queued only because capacity was lacking when it was judged: the
+	// counter it was judged against is at most c0 + (starts applied in this pass), so if even
+	// that is below the limit the Job was startable and had to be started (or the pass had
+	// to fail and be retried). Allow / no-policy Jobs never wait for capacity at all.
+	if err == nil && env.failed == 0 {
+		for _, q := range env.jobs {
+			if !q.queued || q.started || q.rejected || !q.due(now) {
+				continue
+			}
+			excused := false
+			if q.policy == execution.ConcurrencyPolicyEnqueue || q.policy == execution.ConcurrencyPolicyForbid {
+				excused = env.c0+applied >= env.max
+			}
+			vz.Assert(excused, "C06/due-job-is-started-or-the-pass-asks-for-retry")
+			vz.Assert(excused, "C07/due-job-is-started-or-the-pass-asks-for-retry")
+		}
+	}
 	// quiet system (no failed write, no concurrent event): nobody due stays queued while capacity is free
 	if err == nil && env.failed == 0 && env.finishes == 0 {
 		after := env.store.VerifCount("uid1")
+		// the moment the earliest not-yet-due Job becomes due, a re-sync lands (within the
+		// 1 s granularity of the queue): otherwise a due Job sits in a quiet system with nothing
+		// to wake the reconciler. Later Jobs are covered by induction (that pass arms again).
+		hasWaiting := false
+		var sMin time.Time
+		for _, q := range env.jobs {
+			if q.queued && !q.started && !q.rejected && !q.due(now) {
+				if !hasWaiting || q.startAfter.Before(sMin) {
+					sMin = q.startAfter
+				}
+				hasWaiting = true
+			}
+		}
+		if hasWaiting {
+			timely := false
+			for _, op := range env.queue.Ops {
+				if op.Op == "addAfter" && op.Key == "ns/jc" {
+					timely = vz.Or(timely, !op.At.Add(op.After).After(sMin.Add(time.Second)))
+				}
+			}
+			vz.Assert(timely, "C06/resync-lands-when-the-earliest-waiting-job-becomes-due")
+			vz.Assert(timely, "C07/resync-lands-when-the-earliest-waiting-job-becomes-due")
+		}
 		for _, q := range env.jobs {
 			if !q.queued || q.started || q.rejected {
 				continue
